@@ -7,6 +7,7 @@ import pcw_rules
 import blob_rules
 import page_rules
 import crc_rules
+import bounds_rules
 
 TECHNIQUE = "independent tables instead of an independent decoder: binary layout tables and XML vocabulary written from the standard are compared with the tables extracted from the writer's MIR (byte ranges, widths, endianness, ids, length conventions; parent/element/E57-type triples of the maximal XML skeleton); skeleton well-formedness by tokenisation; header/section patch dataflow; page sealing rules"
 EXPLANATION = (
@@ -44,6 +45,8 @@ def run(ctx):
         pcw_rules.data_offset_provenance(ctx, prog, "R5")
         pcw_rules.packet_rules(ctx, prog, "R5", "R5", "R5")
         pcw_rules.finalize_protocol(ctx, prog, "R5")
+        pcw_rules.accept_once(ctx, prog, "R5")
+        bounds_rules.validation_before_update(ctx, prog, "R5")
         blob_rules.write_protocol(ctx, prog, "R5")
         page_rules.seal_before_emit(ctx, prog, "R6", "table" if cfg == "lib" else "crate")
         page_rules.flush_before_seek(ctx, prog, "R6")
